@@ -11,7 +11,7 @@ def main(tier):
         '{add / delete block, connection, rock type; rename_blocks; rename_rocktype; reorder; demote_block; clean_rocktypes; +; embed}; random sequences up to length 60 on grids from geometries incl. minc; '
         'wf(grid) after every step',
         trust=('the representation invariant wf(grid) of DESIGN 3/C08 evaluated clause group by clause group on the executor heap (object identities, names, records)', 'pyvc heap model of t2grid / t2block / t2connection / rocktype objects built by the real constructors', 'z3'),
-        assume=('contract requires wf(grid): start grids are a 4-block ring (real constructors, symbolic contents) and the grid fromgeo() builds from a real 2x1x2 rectangular geometry with a symbolic surface (its wf proved first); one operation per obligation program (29 instances)',
+        assume=('contract requires wf(grid): start grids are a 4-block ring (real constructors, symbolic contents) and the grid fromgeo() builds from a real 2x1x2 rectangular geometry with a symbolic surface (its wf proved first); one operation per obligation program (29 instances) and 6 three-operation sequences',
                 'sequences of operations and MINC (scipy bisect) are bounded (exhaustive at the stated scope)'),
         extra=[(c08, c08.PROGRAMS)],
         explanation='clause -> evidence: renaming with swap / cycle / chain / fresh maps loses no block and keeps lookups, lists, connection keys and per-block connection records consistent; reorder with reversed '
